@@ -4,7 +4,7 @@ NOTES = ("Solver-based checking of the real code. Engine A: Kani 0.68/CBMC 6.11 
 	"/repo's working tree (regenerated on every run). Engine B: nightly MIR dump -> SMT-LIB2 (z3/cvc5). Exit codes: 0 held / only "
 	"listed known findings; 1 VIOLATION (reproduced counterexample); 2 inconclusive (timeout, memory, vacuous cover, overlay mismatch).")
 ENGINES = [
-	{"name": "mir-smt", "path": "/verif/lib/engine_b.py", "serves_properties": ["C13"], "kind_free_text": "nightly MIR dump -> call skeleton -> SMT-LIB2 interleaving model, z3/cvc5"},
+	{"name": "mir-smt", "path": "/verif/lib/engine_b.py", "serves_properties": ["C13", "C06", "C02"], "kind_free_text": "nightly MIR dump -> call skeleton -> SMT-LIB2 interleaving model, z3/cvc5"},
 	{"name": "kani-overlay", "path": "/verif/lib/vlib.py", "serves_properties": [], "kind_free_text": "Kani/CBMC bounded model checking of the repository's functions, harnesses in /verif/harness overlaid on a scratch copy"},
 ]
 BMC = "bounded model checking"
@@ -93,10 +93,12 @@ CHECKS["C03"] = {
 	"technique": BMCT,
 }
 CHECKS["C02"] = {
-	"text": "The default bounding-box stream of TilesReaderTrait (lookup loop) on a reader with a symbolic content (box minus a hole): for every requested box of the stated size, all four empty shapes included, "
-		"the collected stream is exactly the lookups inside the box, each once, same bytes.",
-	"note": "Boxes of at most 2x2 tiles; hand-rolled block_on (futures::lock::Mutex uncontended). Outside: the versatiles reader's chunked stream, MBTiles SQL, multi-threaded execution (C14), pipeline operations; the converting reader's stream/lookup consistency is decided under C06 (Engine B).",
-	"technique": BMCT,
+	"text": "Coordinate-transformed stream of the converting reader against its single-tile lookups: the flip/swap/clip call sequences of get_tile_data, get_bbox_tile_stream and its map_coord closure are extracted from the nightly MIR "
+		"for each of the 8 (flip_y, swap_xy, requested pyramid) assignments and z3 (thorough: also cvc5) decides, for every level, source box, requested box and tile, that a tile the stream delivers at coordinate c is the source tile the lookup at c consults, "
+		"and that it lies inside the requested box. The optimised stream paths are exactly what no test compares with lookups; a SAT model is replayed on the real reader over a 4x4 echo source.",
+	"note": "Decides the converting reader only, on the coordinate level. Outside (stated in evidence): the trait's default stream (futures machinery: no CBMC verdict at a 2x1 box in 1500 s / 18 GB), the versatiles reader's chunked stream, "
+		"MBTiles SQL range query, pipeline operations, payload bytes (C04), multi-threaded execution (C14).",
+	"technique": "symbolic encoding of the compiler's MIR (nightly -Zunpretty=mir -> SMT-LIB2 bit-vectors), z3 / cvc5",
 }
 CHECKS["C10"] = {
 	"text": "Layer-level kernel of the merge: VectorTileLayer::add_from_layer on two equally named layers written by an independent MVT encoder from symbolic ground truths whose key/value tables hold the same entries in different order: "
